@@ -28,7 +28,7 @@ import itertools
 import common
 from common import s2t, t2s, DOC_ERRORS, CRASH_ERRORS
 
-OPS = {"t.one": {}, "t.block": {}, "t.print": {}, "t.columns": {}, "t.tree_widths": {"noshrink": True}}
+OPS = {"t.one": {}, "t.block": {}, "t.print": {"noshrink": True}, "t.columns": {}, "t.tree_widths": {"noshrink": True}}   # print cases carry oracle graphs
 
 OP_COLOR, OP_STYLE, OP_NORM, OP_MARKUP, OP_GET, OP_GETD, OP_DECODE, OP_TEXT, OP_PRINT, OP_PRINTM, OP_RENDER, OP_MEASURE, OP_COLUMNS = range(13)
 STR_OPS = [OP_COLOR, OP_STYLE, OP_NORM, OP_MARKUP, OP_GET, OP_GETD, OP_DECODE, OP_TEXT]
@@ -175,6 +175,8 @@ def generate(rng, tier):
             flen = 4
         cases += blocks(op, extras_for(op), TOKENS, flen, 32000)
         cl = core_len
+        if quick and op in (OP_GET, OP_GETD, OP_NORM):
+            cl = 4             # same parser as Style.parse (op 1 runs the deeper sweep)
         cases += blocks(op, extras_for(op, k=1), CORE[op], cl, 32000)
     # ---- random Unicode
     digits = isdigit_chars()
@@ -188,12 +190,45 @@ def generate(rng, tier):
         chunk = [s2t(d) for d in digits[lo:lo + 64]]
         cases.append(("t.block", [OP_DECODE, [FIX_D8[0]], chunk, s2t(ESC + "["), 1]))
         cases.append(("t.block", [OP_COLOR, [], chunk, s2t("rgb(1,2,"), 1]))
+    # ---- digit runs around CPython's int() conversion limit (4300) in every numeric position
+    R = {"ok": "1" * 4300, "a1": "7" * 4301, "a5": "0" * 4999 + "9", "n1": "\u0663" * 4301, "n5": "\uff13" * 5000}
+    NUM = ["0", "255", "256", "", R["ok"], R["a1"], R["a5"], R["n1"], R["n5"]]
+    LONG = [R["a1"], R["n1"], R["a5"]] if quick else [R["ok"], R["a1"], R["a5"], R["n1"], R["n5"]]
+    NUMS = ["0"] + LONG
+    def templ(op, extras, prefix, toks, n, lasts, close):
+        for last in lasts:
+            cases.append(("t.block", [op, extras, [s2t(x + ",") for x in toks], s2t(prefix), n, s2t(last + close)]))
+    templ(OP_COLOR, [], "rgb(", NUM, 2, NUM, ")")                      # rgb(a,b,c), all 729 combinations
+    templ(OP_COLOR, [], "color(", [], 0, NUM, ")")
+    templ(OP_STYLE, [], "bold on rgb(", NUMS, 2, NUMS, ") link x")
+    templ(OP_STYLE, [], "rgb(", NUMS, 2, NUMS, ")")
+    templ(OP_NORM, [], "not bold rgb(", NUMS, 2, NUMS, ")")
+    templ(OP_GET, [], "on rgb(", NUMS, 2, NUMS, ")")
+    templ(OP_GETD, extras_for(OP_GETD), "rgb(", NUMS, 2, NUMS, ")")
+    templ(OP_MARKUP, extras_for(OP_MARKUP), "[rgb(", NUMS, 2, NUMS, ")]x[/]")
+    templ(OP_MARKUP, extras_for(OP_MARKUP), "[b]x[/rgb(", NUMS, 2, NUMS, ")]")
+    templ(OP_TEXT, [], "", NUMS, 1, NUMS, "")
+    # ---- SGR sequences ESC [ p1;...;pk m, k = 0..5 parameters (every truncation of 38;2;r;g;b / 38;5;n, with and
+    #      without a trailing ';', sequences ending right after 38 / 48), text around them
+    SGRP = ["", "0", "1", "2", "5", "38", "48", "255", "300", "x", "\u00b2"]
+    def sgr(toks, kmax, pre="a" + ESC + "[", post="mz"):
+        for k in range(0, kmax + 1):
+            if k == 0:
+                cases.append(("t.one", [OP_DECODE, [FIX_D8[0]], s2t(pre + post)]))
+                continue
+            for last in toks:
+                cases.append(("t.block", [OP_DECODE, [FIX_D8[0]], [s2t(x + ";") for x in toks], s2t(pre), k - 1, s2t(last + post)]))
+    sgr(SGRP, 5 if quick else 6)
+    sgr(["38", "48", "2", "5", "0"] + LONG, 3 if quick else 4)
+    sgr(["38", "48", "2", "5"], 4, pre=ESC + "[1;", post="m" + ESC + "[0m")
     # ---- Console.print: all token strings up to 2 (quick) / 3 tokens, random token strings, random Unicode
     pl = 2 if quick else 3
     pstr = ["".join(t) for L in range(0, pl + 1) for t in itertools.product(TOKENS, repeat=L)]
     for _ in range(1200 if quick else 20000):
         pstr.append("".join(rng.choice(TOKENS) for _ in range(rng.choice([3, 4, 5, 6, 9]))))
     pstr += strs[: (500 if quick else 10000)]
+    for x in LONG:                         # a style with a long digit run reaches Color.parse through Text.render
+        pstr += [f"[rgb({x},0,0)]x[/]", f"[on rgb(0,{x},0)]x", f"rgb({x},0,0) " + ESC + f"[{x}m", f"[link=x rgb(0,0,{x})]y"]
     cases += gen_prints(rng, pstr)
     # ---- Columns(width=...): every n 1..6 x cwid 1..40 x W 1..40 (+ wide) x fill order
     for n in range(1, 7 if quick else 13):
@@ -269,10 +304,11 @@ def impl(op, arg):
         o, x, s = arg
         return run_str(o, x, t2s(s))
     if op == "t.block":
-        o, x, alpha, prefix, n = arg
+        o, x, alpha, prefix, n = arg[:5]
+        suf = t2s(arg[5]) if len(arg) > 5 else ""
         al = [t2s(a) for a in alpha]
         pre = t2s(prefix)
-        return [run_str(o, x, pre + "".join(t)) for t in itertools.product(al, repeat=n)]
+        return [run_str(o, x, pre + "".join(t) + suf) for t in itertools.product(al, repeat=n)]
     if op == "t.print":
         mk, s, W = arg[0], t2s(arg[1]), arg[2]
         con = _console(W)
@@ -324,7 +360,8 @@ def impl(op, arg):
 # ---------------------------------------------------------------- model side / spec checkers
 def model_case(op, arg):
     if op == "t.print":
-        mk, s, W, es, sps = arg[0], arg[1], arg[2], arg[3], arg[4]
+        a = list(arg) + [[]] * 7          # a shrunk replay may have lost trailing fields
+        mk, s, W, es, sps = a[0], a[1], a[2], a[3], a[4]
         return op, [mk, ASIS_MARKUP[0], s, W, es, sps]
     if op == "t.columns":
         detect()
@@ -340,8 +377,10 @@ def spec_cases(op, arg, out):
     if op == "t.block":
         return [("spec.documented", [arg[0], sorted(set(out))])]
     if op == "t.print":
-        mk = arg[0]
+        mk = arg[0] if arg else 0
         cs = [("spec.documented", [OP_PRINTM if mk else OP_PRINT, [out]])]
+        if len(arg) < 7:
+            return cs
         # the highlighter hypothesis on this string: spans within the highlighted text
         cs.append(("spec.in_range", [arg[5], arg[4]]))
         cs.append(("spec.lines_in_range", arg[6]))
@@ -359,7 +398,11 @@ def describe(op, arg):
         if op == "t.one":
             return f"entry point {arg[0]} on {t2s(arg[2])!r}"
         if op == "t.block":
-            return f"entry point {arg[0]}: all strings {t2s(arg[3])!r} + {arg[4]} tokens of {[t2s(a) for a in arg[2]]!r}"
+            def short(x):
+                x = t2s(x)
+                return x if len(x) < 40 else f"{x[:3]}..({len(x)} chars)"
+            suf = short(arg[5]) if len(arg) > 5 else ""
+            return f"entry point {arg[0]}: all strings {short(arg[3])!r} + {arg[4]} tokens of {[short(a) for a in arg[2]]!r} + {suf!r}"
         if op == "t.print":
             return f"Console(width={arg[2]}).print({t2s(arg[1])!r}, markup={bool(arg[0])})"
         if op == "t.columns":
